@@ -9909,8 +9909,18 @@ lyxp_set_cast(struct lyxp_set *set, enum lyxp_set_type target)
                 }
                 set->val.str = str;
             } else {
-                if (asprintf(&str, "%03.1Lf", set->val.num) == -1) {
-                    LOGMEM_RET(set->ctx);
+                int prec;
+
+                /* as many fraction digits as are needed to distinguish the number (XPath 1.0 sec. 4.2) */
+                str = NULL;
+                for (prec = 1; prec < 20; ++prec) {
+                    free(str);
+                    if (asprintf(&str, "%.*Lf", prec, set->val.num) == -1) {
+                        LOGMEM_RET(set->ctx);
+                    }
+                    if (strtold(str, NULL) == set->val.num) {
+                        break;
+                    }
                 }
                 set->val.str = str;
             }
